@@ -36,15 +36,26 @@ Bodies ==
 DeepBodies == {One} \cup {Obj(<<P(Ka, Ref(<<x>>, <<>>))>>, <<>>) : x \in Targets \ {"@missing"}}
                     \cup {Obj(<<P(Ka, Ref(<<x, y>>, <<>>))>>, <<>>) : x \in Targets \ {"@missing"}, y \in Targets \ {"@missing"}}
                     \cup {Obj(<<P(Ka, Ref(<<x>>, <<OptR>>))>>, <<>>) : x \in Targets \ {"@missing"}}
+\* Level 4: key shortcuts.  The key type must be a string type, which no listed statement turns into a verdict of the
+\* graph: only the used names and termination (no crash, no run-away recursion) are decided on this family.
+SC(tname, n) == [k |-> <<64>>, sc |-> TRUE, kt |-> tname, n |-> n]
+StrLit == Lit([t |-> "str", c |-> <<97>>], <<>>)
+KeyBodies == {One, StrLit}
+        \cup {Ref(<<x>>, <<>>) : x \in Targets}
+        \cup {Ref(<<x, y>>, <<>>) : x \in Targets \ {"@missing"}, y \in Targets \ {"@missing"}}
+        \cup {Obj(<<SC(x, One)>>, <<>>) : x \in Targets}
+KeyRoots == {Obj(<<SC("@t0", One)>>, <<>>), Obj(<<P(Kr, Ref(<<"@t0">>, <<>>)), SC("@t1", Ref(<<"@t0">>, <<OptR>>))>>, <<>>)}
 DeepRoots == {Obj(<<P(Kr, Ref(<<"@t0">>, <<>>)), P(Kx, Ref(<<"@t1">>, <<>>))>>, <<>>)}
-Roots == IF Level = 3 THEN DeepRoots ELSE {Ref(<<"@t0">>, <<>>), Obj(<<P(Kr, Ref(<<"@t0">>, <<>>)), P(Kx, Ref(<<TName(NTypes - 1)>>, <<OptR>>))>>, <<>>)}
+Roots == IF Level = 3 THEN DeepRoots ELSE IF Level = 4 THEN KeyRoots ELSE {Ref(<<"@t0">>, <<>>), Obj(<<P(Kr, Ref(<<"@t0">>, <<>>)), P(Kx, Ref(<<TName(NTypes - 1)>>, <<OptR>>))>>, <<>>)}
 
 VARIABLES bodies, root
-Init == bodies \in [0..(NTypes - 1) -> IF Level = 3 THEN DeepBodies ELSE Bodies] /\ root \in Roots
+Init == bodies \in [0..(NTypes - 1) -> IF Level = 3 THEN DeepBodies ELSE IF Level = 4 THEN KeyBodies ELSE Bodies] /\ root \in Roots
 Next == UNCHANGED <<bodies, root>>
 Spec == Init /\ [][Next]_<<bodies, root>>
 Env == [types |-> [i \in 1..NTypes |-> [name |-> TName(i - 1), n |-> bodies[i - 1]]], enums |-> <<>>]
-Emit == PrintT("@@CASE " \o ToJson([schema |-> root, env |-> Env, want |-> GraphVerdict(Env, root),
+\* (a key type that is not a string is an error of its own, which may be reported before a missing name)
+Want == IF Level = 4 THEN "unspec" ELSE GraphVerdict(Env, root)
+Emit == PrintT("@@CASE " \o ToJson([schema |-> root, env |-> Env, want |-> Want,
                                    missing |-> SetToSeq(Missing(Env, root)), used |-> SetToSeq(Refs(root)),
                                    pred_star_rejects |-> I!ImplRejectsRecursion(Env, root, FALSE),
                                    pred_mesh_rejects |-> I!ImplRejectsRecursion(Env, root, TRUE),
